@@ -110,7 +110,8 @@ def check_greedy(run, A):
                         if isinstance(c, T):
                             stack_.append(c)
         return False
-    alts_ = [r_ for r_ in ret_alts(g)]
+    from ..walk import dead_leaf as _dead
+    alts_ = [r_ for r_ in ret_alts(g) if not _dead(r_)]
     run.check(bool(alts_) and all(depends_on_scores(r_) for r_ in alts_), 'R-SEL', '_mapping_from_score_matrix: every returned mapping depends on the scores',
               fn.loc(), '', 'a returned mapping has no data path to the values of `score_matrix` (only to its shape): the buffer of the mapping is never filled with the picks',
               construct=f'R-SEL::{q}::filled')
@@ -277,7 +278,16 @@ def check_apply_mapping(run, A):
         elif newaxis_insertions(ind) is not None:
             base_ = strip_views(newaxis_insertions(ind)[0])
         ok = src.op == 'param' and src.args[0] == 'mask' and ax == 0 and base_.op == 'param' and base_.args[0] == 'mapping' and base_ is not ind
-    run.check(ok, 'R-PERM', 'apply_mapping: pure gather mask[mapping, range(F)]', fn.loc(), '', 'apply_mapping is not the advanced-indexing gather of the mask rows by the mapping per frequency',
+    def _sub_root(x):
+        x = strip_views(x)
+        while x.op == 'sub':
+            x = strip_views(x.args[0])
+        return x
+    recognised_form = len(rets) == 1 and ((rets[0].op == 'sub' and _sub_root(rets[0]).op == 'param') or is_call_to(rets[0], 'numpy.take_along_axis', 'numpy.take'))
+    if not ok and not recognised_form:
+        run.unresolved('R-PERM', 'apply_mapping: pure gather mask[mapping, range(F)]', fn.loc(), 'the returned value is neither an index expression on the mask nor a take_along_axis of it')
+    else:
+      run.check(ok, 'R-PERM', 'apply_mapping: pure gather mask[mapping, range(F)]', fn.loc(), '', 'apply_mapping is not the advanced-indexing gather of the mask rows by the mapping per frequency',
               construct=f'R-PERM::{q}::gather')
     n_eff = [e for e in g.events if e.kind in ('inplace', 'store')]
     run.check(not n_eff, 'R-PERM', 'apply_mapping: no value is modified', fn.loc(), '', 'apply_mapping modifies values in place', construct=f'R-PERM::{q}::pure')
@@ -637,6 +647,8 @@ def check(run):
     check_stale_loop_variables(run, A, ('pb_bss.permutation_alignment',))
     from ..opt import check_extent_loops
     check_extent_loops(run, A, ('pb_bss.permutation_alignment',))
+    from ..opt import check_layout_dependent_flatten
+    check_layout_dependent_flatten(run, A, ('pb_bss.permutation_alignment',))
     from ..opt import check_result_buffers
     check_result_buffers(run, A, ('pb_bss.permutation_alignment',))
     check_forwarding(run, A, ('pb_bss.permutation_alignment',))
